@@ -7,6 +7,9 @@ request   {"op":"params","names":[..declared names..],"atomic":bool,"history":[o
         | {"k":"dict","es":[[[kind,name],q|null],..]} | {"k":"scalar","v":q} | {"k":"other"}
 response  {"steps":[{"err":null|enum,"set":bool,"abs":[q.. in declared order],"pv":[q..],
                      "dict":null|[[ "str"|"sym", name, q ],..]},..]}
+Several live instances: an op may carry "inst": i (default 0, the instance built first) and {"k":"clone","src":i}
+appends `copy.deepcopy(instance_i)`; the step then reports the state of the instance touched (for clone: the new one).
+"rebuild": true selects the `__setstate__` variant of `Params.restore true` (default false = the code as written).
 -/
 import Pygom.Params
 import Pygom.Codec
@@ -69,12 +72,23 @@ def paramsStateToJson (r : Params.State Rat × Option Params.Err) : Json :=
                | Option.none => Json.null
                | some d => Json.arr (d.map keyToJson).toArray) ]
 
+def paramsMOpOfJson (j : Json) : Except String (MOp Rat) := do
+  let k ← (fld j "k").getStr?
+  if k == "clone" then
+    pure (.clone ((fld j "src").getNat?.toOption.getD 0))
+  else
+    pure (.assign ((fld j "inst").getNat?.toOption.getD 0) (← paramsOpOfJson j))
+
 def opParams (j : Json) : Except String Json := do
   let names ← listOfJson (fun x => x.getStr?) (fld j "names")
   let atomic := (fld j "atomic").getBool?.toOption.getD false
-  let hist ← listOfJson paramsOpOfJson (fld j "history")
-  let tr := Params.trace atomic (Params.init names) hist
-  pure (Json.mkObj [("steps", Json.arr (tr.map paramsStateToJson).toArray)])
+  let rebuild := (fld j "rebuild").getBool?.toOption.getD false
+  let hist ← listOfJson paramsMOpOfJson (fld j "history")
+  let tr := Params.mtrace atomic rebuild [Params.init names] hist
+  let steps ← tr.mapM (fun r => match r.1 with
+    | some s => pure (paramsStateToJson (s, r.2))
+    | Option.none => Except.error "params: operation addressed to an instance that does not exist")
+  pure (Json.mkObj [("steps", Json.arr steps.toArray)])
 
 def handleParams (op : String) (j : Json) : Option (Except String Json) :=
   match op with
